@@ -65,7 +65,7 @@ def make_plane(action):
     if name == 'Plane':
         return lentil.Plane(amplitude=A.copy())
     if name == 'Pupil':
-        return lentil.Pupil(amplitude=A.copy(), focal_length=1.0)
+        return lentil.Pupil(amplitude=A.copy(), focal_length=2.0)     # differs from the wavefront's: a refused product must not adopt it
     if name == 'Image':
         return lentil.Image(amplitude=A.copy())
     if name == 'Tilt':
@@ -106,11 +106,14 @@ def pdigest(p):
 def apply(w, action, fft=False):
     """-> (new wavefront or None, exception or None, plane)"""
     import lentil
-    if action == 'Propagate':
+    if action in ('Propagate', 'PropagateFFT'):
+        # output sampling chosen so that the transform period stays small: pupil -> image with 2*DU, image -> pupil with DX
+        z = w.focal_length if np.isfinite(w.focal_length) else 1.0
+        du = op.WL * z / (4 * float(np.broadcast_to(w.pixelscale, (2,))[0]))      # alpha = 1/4 whatever the history
         try:
-            if fft:
-                return lentil.propagate_fft(w, op.DU * 2, shape=(3, 3), oversample=1), None, None
-            return lentil.propagate_dft(w, op.DU, shape=(3, 3), oversample=1), None, None
+            if action == 'PropagateFFT':
+                return lentil.propagate_fft(w, du, shape=(3, 3), oversample=1), None, None
+            return lentil.propagate_dft(w, du, shape=(3, 3), oversample=1), None, None
         except Exception as e:
             return None, e, None
     plane = make_plane(action)
@@ -139,8 +142,14 @@ def step_check(M, node, w, action, path, acc, fft=False):
     out, exc, plane = apply(w, action, fft)
     pd0 = pdigest(plane) if plane is not None else None
     site = f'cell:{M["nodes"][node]["wf"]}x{plane.ptype}' if (plane is not None and action.startswith('Mul_')) else (
-        f'class:{action[4:]}' if action.startswith('Cls_') else f'propagate:{M["nodes"][node]["wf"]}')
+        f'class:{action[4:]}' if action.startswith('Cls_') else f'{action.lower()}:{M["nodes"][node]["wf"]}')
     acc.case(case, outcome=f'{exp["wf"]}/{exp["outcome"]}')
+    if action == 'PropagateFFT' and isinstance(exc, NotImplementedError) and any(f.tilt for f in w.data):
+        # propagate_fft refuses wavefronts that carry tilt metadata before it looks at the type: C09's statement, not C08's
+        acc.cls('fft-refuses-tilt-metadata(C09)')
+        if wdigest(w) != before:
+            acc.violation(f'{site}:refusal-mutates-wavefront', case, 'refused operation changed the wavefront')
+        return None
     if exp['outcome'] == 'TypeError':
         acc.cls('refused-steps')
         if exc is None:
@@ -218,8 +227,6 @@ def run(tier, seed, acc, procs=None):
     for n0 in M['init']:
         for a in M['acts']:
             tasks.append(('t_paths', {'model': share, 'n0': n0, 'first': a, 'depth': depth}))
-            if tier != 'quick':
-                tasks.append(('t_paths', {'model': share, 'n0': n0, 'first': a, 'depth': depth - 2, 'fft': True}))
     acc.states += len(M['nodes'])
     acc.transitions += M['edges']
     acc.cls('tlc-distinct-states', M['tlc_states'][1])
